@@ -54,12 +54,15 @@ CLAIMS = {
  "C12": dict(
     text="Proof (Verus) that the canonical style string printed by `impl Display for Style` (what --show-config reports) consists of exactly: one word for EVERY attribute that is set (omit, blink, bold, dim, hidden, italic, reverse, strike, ul - with the spelling the parser reads back as a text attribute), then the foreground word (syntax / colour / normal), then the background colour if any; `raw` alone for raw styles.",
     note=_COMMON_NOTE + " Only the printing half is under contract: parse_ansi_term_style (word iterator with closures), parse_color/#rrggbb, to_ansi_color and the actual SGR bytes (ansi_term) are not; the round-trip lemma parse(canon(s)) ~ s is therefore not proved."),
+ "C13": dict(
+    text="Proof (Verus) of the per-option lookup in the real code: GetOptionValue::get_option_value returns the main [delta] value when there is one, else the value of the first feature - scanning the features string from the last listed word to the first - that has one; get_provenanced_value_for_feature asks the custom [delta \"feature\"] section before the built-in feature's value function; the String/Option<String> getters let a GIT_CONFIG_PARAMETERS override beat the file; GitConfig::get answers nothing when disabled, and the prologue of set_options disables it under --no-gitconfig. Results are equal to spec functions of the arguments, hence deterministic.",
+    note=_COMMON_NOTE + " Assumed: String keys obey vstd's hash model and a borrowed &str key finds the entry with these characters; git2 Config::get_string is a function of file and key; split_whitespace/rev give the same words in opposite order; value functions and From/Into<OptionValue> are uninterpreted. NOT decided: the assembly of the feature list (gather_features*: VecDeque, iterator chains, recursion), the set_options! macro (command line beats everything), bool/usize/f64 getters."),
  "C14": dict(
     text="Proof (Verus) of the header-emission contracts: each file-header handler writes at most one header per call (bounded growth of the ghost history), write_generic's blank-line/omit/color-only cases, the diff-line handler resets the handled/current pair, claims exactly the lines with the literal prefix 'diff '.",
     note=_COMMON_NOTE + " Exact header counts over whole histories and box drawing are not decided."),
 }
 _NOT_YET = "check not built yet in this session (planned, see DESIGN.md section 4)"
-NA = {p: _NOT_YET for p in ["C06","C13"]}
+NA = {p: _NOT_YET for p in ["C06"]}
 NA["C18"] = "quantifies over OS-level fault sequences, child exit statuses and pager selection (run_app / OutputType::try_pager: Command::spawn, wait, process::exit); neither installed deductive verifier has a model of these and no function with a meaningful contract can be separated without refactoring unguarded source (DESIGN.md section 5)"
 for _p in CLAIMS:
     CLAIMS[_p].setdefault("technique", _V)
